@@ -48,6 +48,16 @@ Theorem C11_subkey_bound : forall c P evs e, read_entity c P evs = Ok e ->
 Proof. exact subkey_bound. Qed.
 Print Assumptions C11_subkey_bound.
 
+(* the signature whose usage and lifetime a subkey SHOWS (for a revoked subkey: the binding signature
+   kept beside the revocation) is likewise a binding or revocation accepted under the primary key *)
+Theorem C11_subkey_shown_bound : forall c P evs e, read_entity c P evs = Ok e ->
+  forall sk, In sk (e_subkeys e) ->
+    exists s, subkey_followed_by evs (sk_key sk) s /\ s_core s = sk_shown c sk /\
+      (sc_type (sk_shown c sk) = pgp_sigtype_subkey_binding \/ sc_type (sk_shown c sk) = pgp_sigtype_subkey_revocation) /\
+      sig_accepted c P (e_primary e) (binding_hash_input (e_primary e) (sk_key sk) ++ suffix (sk_shown c sk)) (sk_shown c sk).
+Proof. exact subkey_shown_bound. Qed.
+Print Assumptions C11_subkey_shown_bound.
+
 (* the key material in those messages is the packet body as it appears in the input *)
 Theorem C11_reserialise_exact : forall ecok body k rest, bytes_ok body = true ->
   parse_public_key fixed ecok body = Ok (k, rest) -> key_body k ++ rest = body.
